@@ -292,7 +292,7 @@ func (e *expander) line(line string) {
 		e.problems = append(e.problems, "short line "+line)
 		return
 	}
-	name := f[1]
+	name := path.Clean(f[1]) // the name means the clean path it spells
 	wild := strings.Contains(name, "*")
 	if f[0] == "omit" {
 		if wild {
@@ -562,12 +562,24 @@ func runStageCase(c Case, c07 bool) interface{} {
 		defer exec.Command("rm", "-rf", dir).Run()
 	}
 	root, ext := dir+"/root", dir+"/ext"
+	slash, _ := c["slashroot"].(bool)
+	const inside = "/.verif" // what the chrooted run needs, out of every line's and package's sight
+	if slash {
+		ext = root + inside + "/ext"
+	}
 	notes, err := buildTree(root, d.Objs)
 	if err != nil {
 		return obj("harness-error", err.Error())
 	}
 	if _, err := buildTree(ext, d.Ext); err != nil {
 		return obj("harness-error", err.Error())
+	}
+	if slash {
+		// before the snapshot, and with the root directory's time put back to something that is
+		// not "now" (the time synthesised members carry)
+		os.MkdirAll(root+inside, 0755)
+		old := time.Unix(1500000000, 0)
+		os.Chtimes(root, old, old)
 	}
 	fs := map[string]lrec{}
 	snapshot(root, "/R", fs)
@@ -599,6 +611,18 @@ func runStageCase(c Case, c07 bool) interface{} {
 
 	bin := os.Getenv("VERIF_STAGEMAKER")
 	args := []string{"-root", root}
+	work := dir // where the add-files script and the archives go
+	if slash {
+		work = root + inside
+		data, err := ioutil.ReadFile(bin)
+		if err != nil {
+			return obj("harness-error", err.Error())
+		}
+		if err := ioutil.WriteFile(work+"/stagemaker", data, 0755); err != nil {
+			return obj("harness-error", err.Error())
+		}
+		args = []string{"-root", "/"}
+	}
 	if d.NoVDB {
 		args = append(args, "-novdb")
 	}
@@ -606,13 +630,38 @@ func runStageCase(c Case, c07 bool) interface{} {
 		args = append(args, "-emptydev")
 	}
 	if len(d.AddFiles) > 0 {
-		text := strings.Replace(strings.Join(d.AddFiles, "\n")+"\n", "$EXT", ext, -1)
-		ioutil.WriteFile(dir+"/addfiles", []byte(text), 0644)
-		args = append(args, "-addfiles", dir+"/addfiles")
+		extSeen := ext
+		if slash {
+			extSeen = inside + "/ext"
+		}
+		text := strings.Replace(strings.Join(d.AddFiles, "\n")+"\n", "$EXT", extSeen, -1)
+		ioutil.WriteFile(work+"/addfiles", []byte(text), 0644)
+		if slash {
+			args = append(args, "-addfiles", inside+"/addfiles")
+		} else {
+			args = append(args, "-addfiles", dir+"/addfiles")
+		}
+	}
+	// run stagemaker with these arguments; in a chrooted run `out` (a path below dir) is written
+	// inside the build root and moved out afterwards
+	run := func(a []string) (int, string, string) {
+		if !slash {
+			return runCmd(dir, bin, a...)
+		}
+		return runCmd(dir, "chroot", append([]string{root, inside + "/stagemaker"}, a...)...)
 	}
 	gen := func(out, compress string) (int, string) {
-		a := append([]string{"-generate", "-o", out, "-compress", compress}, args...)
-		code, _, se := runCmd(dir, bin, a...)
+		target := out
+		if slash {
+			target = inside + "/" + path.Base(out)
+		}
+		a := append([]string{"-generate", "-o", target, "-compress", compress}, args...)
+		code, _, se := run(a)
+		if slash && code == 0 {
+			if err := os.Rename(root+target, out); err != nil {
+				return 1, err.Error()
+			}
+		}
 		return code, se
 	}
 	t0 := time.Now().Unix()
@@ -636,7 +685,7 @@ func runStageCase(c Case, c07 bool) interface{} {
 			}
 			ms = append(ms, []interface{}{hx(m.Name), m.Type, hx(link)})
 		}
-		lcode, so, _ := runCmd(dir, bin, append([]string{"-list", "stage", "-files"}, args...)...)
+		lcode, so, _ := run(append([]string{"-list", "stage", "-files"}, args...))
 		listed := strings.Split(strings.TrimSuffix(so, "\n"), "\n")
 		eq := lcode == 0 && len(listed) == len(members)
 		for i := 0; eq && i < len(listed); i++ {
